@@ -2,7 +2,10 @@
 # every other property id must have a reason in NA.
 
 ENGINES = [
-    {"name": "E1-enum", "path": "mc/core.py", "serves_properties": ["C01"],
+    {"name": "E2-sched", "path": "mc/sched.py", "serves_properties": ["C02", "C05"],
+     "kind_free_text": "stateless preemption-bounded exploration of the real joblib thread-pool tasks under a baton "
+                       "scheduler (sys.settrace scheduling points), one pool invocation at a time"},
+    {"name": "E1-enum", "path": "mc/core.py", "serves_properties": ["C01", "C02", "C03", "C18", "C20"],
      "kind_free_text": "bounded exhaustive enumeration of inputs/configurations/operation sequences on the real code "
                        "with reference-model or differential oracle; 16 forked workers"},
 ]
@@ -25,6 +28,51 @@ CHECKS = {
         note="Trusts numpy float division for the reference's final rational->float conversion; lengths above the bound "
              "and non-finite scores are not covered."),
 }
+
+CHECKS.update({
+    "C02": dict(
+        level="model_checking", engine="E1-enum + E2-sched", design="DESIGN.md 4/C02",
+        technique="bounded exhaustive enumeration of datasets/configurations with recording estimators + stateless "
+                  "preemption-bounded schedule exploration (CHESS-style) of brew's joblib pools on the real code",
+        text="brew() is run with recording estimators (public Model API) over every spectrum-multiplicity vector x scan "
+             "offsets x all <=2 (quick) / <=3 (thorough) deviations of folds, training cap, workers, seeds, estimator "
+             "kind, spectrum-key width, number of files and format; from the recorders' logs the fold partition, "
+             "spectrum grouping, train/held-out disjointness (PSM and spectrum), exact complement without cap and "
+             "row-aligned calibrated scores are checked; all 2^m label patterns of one fold show that a memorising "
+             "learner's held-out scores do not depend on held-out labels; every schedule of each pool invocation "
+             "with <=1 (quick) / <=2 (thorough) preemptions must reproduce the sequential outcome, and free-running "
+             "joblib with 2/4/8 workers must land in that outcome set.",
+        note="Row identity relies on a feature with distinct values; third-party code is atomic between scheduling "
+             "points (mokapot frame line/call events); real multi-core memory effects are outside the model."),
+    "C03": dict(
+        level="exploration", engine="E1-enum", design="DESIGN.md 4/C03",
+        technique="bounded exhaustive enumeration of core tables (up to renaming) x configuration deviations vs a "
+                  "tie-sound selection reference and the C01 rational q-value reference",
+        text="Every canonical core table with n<=4 (quick) / n<=5 (thorough) rows over 3 spectra x 4 peptides, in all "
+             "configurations within the deviation bound (de-duplication, roll-up, decoys, 1-3 collections, prefixes, "
+             "text/Parquet, extra level columns, file order) plus a tie family, is pushed through assign_confidence; "
+             "result files are validated level by level (one maximal row per spectrum/entity among the retained PSMs, "
+             "row integrity, order, target/decoy split, q-values by the C01 formula on exactly the retained rows) and "
+             "the stand-alone brew_rollup tool is run on the written files.",
+        note="12 ballast rows keep both classes at every level; PEP values are only range-checked here (C06)."),
+    "C18": dict(
+        level="exploration", engine="E1-enum", design="DESIGN.md 4/C18",
+        technique="bounded exhaustive enumeration of FASTA inputs (all sequences over {A,C,K,R} to length 7/9, pairs, "
+                  "multi-file, wrapped records) x modes x RNG seeds vs structural invariants and independent read-back",
+        text="make_decoys is run on every sequence up to the length bound in every mode (reverse, shuffle with global "
+             "seeds 0..7, concatenate on/off), on pairs, several files, wrapped records and header variants; name, "
+             "length, residue multiset, fixed peptide termini, identical cleavage sites, exact interior reversal, "
+             "target-first order and round trip through an independent FASTA reader and mokapot's own are checked.",
+        note="An entry is read as (name, sequence); header descriptions and line width are not part of the statement."),
+    "C20": dict(
+        level="exploration", engine="E1-enum", design="DESIGN.md 4/C20",
+        technique="deviation-bounded exhaustive enumeration (<=3 quick / <=5 thorough deviations over 16 dimensions) of "
+                  "generated PepXML documents vs the builder's own record of what it wrote",
+        text="Documents are generated by a builder that knows every hit it wrote; read_pepxml(to_df=True) must return "
+             "one row per hit in document order with the spectrum's scan/charge/RT/mass, run file name, modified "
+             "peptide string, all protein accessions, numeric scores and the decoy label rule; negatives must raise.",
+        note="Any exception counts as rejection for malformed input; calc_mass-derived features are not compared."),
+})
 
 NA = {
     "C04": "expectation over a data-generating distribution: exact enumeration over all 2^K labelings (K<=12) was "
